@@ -160,11 +160,16 @@ def run(db, res, tier):
   nd = check_descriptors(res, scope_all)
   nc = check_cond(res, db)
   nv = check_validations(res, db)
+  # the compaction maps hold indices into the nvmax-wide compact workspace: every value stored in dof_cdof and every
+  # index of cdof_dof stays below nvmax (same clause as C38/C16, a memory-safety necessary condition here)
+  from .c38 import check_compaction
+
+  check_compaction(db, res)
   res.floor("slot allocations", na, 60)
   res.floor("block descriptors", nd, 12)
   res.floor("compact-workspace launches", nc, 10)
   res.floor("validations", nv, 25)
-  res.rule_text = "R-CAP.1: every write through an atomically allocated slot is dominated by a capacity comparison covering the whole block (or tabled as bounded by construction); R-CAP.5: (start, count) block descriptors never describe rows beyond the capacity; R-COND: every launch that binds the conditionally allocated compact workspace is guarded by at least the flags of the allocation predicate; R-VALID: each documented configuration constraint is rejected by a raise before any launch"
+  res.rule_text = "R-CAP.1: every write through an atomically allocated slot is dominated by a capacity comparison covering the whole block (or tabled as bounded by construction); R-CAP.1 (sequential form): the DOF compaction maps only hold compact indices below nvmax; R-CAP.5: (start, count) block descriptors never describe rows beyond the capacity; R-COND: every launch that binds the conditionally allocated compact workspace is guarded by at least the flags of the allocation predicate; R-VALID: each documented configuration constraint is rejected by a raise before any launch"
   res.explanation = (
     "Necessary conditions for memory safety that are visible in the shape of the code. Not decided: bounds that depend on model-data invariants (adr + num <= n), Warp tile primitives. "
     "Note: Warp wraps negative indices (array.h), so -1 sentinels index the last element instead of leaving the array; sentinel guards are therefore not part of this check."
